@@ -213,4 +213,18 @@ DiffKeysAtT(A, B, T, Tol(_, _)) ==
         \/ (k \in DOMAIN B /\ \E i \in 1..Len(B[k].H) : ~Near(B[k].H[i], T) /\ ~(k \in DOMAIN A /\ \E j \in 1..Len(A[k].H) : HoldEqT(B[k].H[i], A[k].H[j], Tol)))
         \/ (ClearlyHeld(A, k, T) /\ ClearlyHeld(B, k, T) /\ A[k].data # B[k].data)}
 
+-----------------------------------------------------------------------------
+\* Wall-clock robustness of comparisons between recoveries that were started at different seconds (a busy machine
+\* spreads the recoveries of one stop point over many seconds).  The start skips a record when its lifetime is over
+\* AT THE SECOND OF THE START: a record whose lifetime ends inside [lo, hi] is applied by one start and skipped by
+\* another.  The keys of such records are left out of the comparison (counted as agnostic by the monitor).
+RecEnd(r) == IF Bit(r.ef, EF_UNLIMITED) THEN INF
+             ELSE IF Bit(r.ef, EF_MS) THEN r.ct + (r.et \div 1000)
+             ELSE IF Bit(r.ef, EF_MINUTE) THEN r.ct + r.et * MinuteLen
+             ELSE IF r.et > 0 THEN r.ct + r.et ELSE INF
+\* (a minute-unit LOCK record already stops taking effect when its remaining lifetime rounds to zero, up to a minute earlier)
+RecEndLo(r) == IF Bit(r.ef, EF_MINUTE) /\ ~Bit(r.ef, EF_UNLIMITED) /\ ~Bit(r.ef, EF_MS) THEN RecEnd(r) - MinuteLen ELSE RecEnd(r)
+TimeKeys(recs, lo, hi) == {<<recs[i].db, recs[i].key>> : i \in {j \in 1..Len(recs) : RecEndLo(recs[j]) <= hi /\ RecEnd(recs[j]) >= lo}}
+Without(S, K) == [k \in (DOMAIN S) \ K |-> S[k]]
+
 =============================================================================
